@@ -674,8 +674,15 @@ int main(int argc, char **argv) {
           }
       inits.insert(inits.end(), next.begin(), next.end());
     }
-    const std::vector< std::string > p0 = {"g", "s", "f", "gf", "sf"}, p1 = {"g", "s", "gf", "sf"};
-    for (size_t size = 1; size <= 3; ++size)
+    std::vector< std::string > p0 = {"g", "s", "f", "gf", "sf"}, p1 = {"g", "s", "gf", "sf"};
+    if (thorough) {
+      // programs that take, release and take again (the cursor moves on inside one program)
+      for (const char *x : {"gfg", "sfs", "gfs"}) {
+        p0.push_back(x);
+        p1.push_back(x);
+      }
+    }
+    for (size_t size = 1; size <= (thorough ? 4u : 3u); ++size)
       for (const std::string &w : inits) {
         int held = 0, maxheld = 0;
         for (char x : w) {
@@ -699,6 +706,10 @@ int main(int argc, char **argv) {
             if (demand > (int)size && b.size() != 2)
               continue;
             if (!thorough && w.size() == 3 && a.size() + b.size() > 3 && a[0] != 's' && b[0] != 's')
+              continue;
+            // a three-operation program only against a one-operation partner (all interleavings of
+            // two longer programs do not complete within the tier's budget)
+            if ((a.size() == 3 || b.size() == 3) && a.size() + b.size() > 4)
               continue;
             Scenario ps = pool_scenario(size, {a, b}, w);
             ps.post_points = a.size() + b.size() <= 2;
